@@ -90,12 +90,19 @@ type Ctx struct {
 	specUsed  map[string]bool
 	modelVars [][2]string // (label, term) for get-value
 	ufs       map[string]bool
+	constGlob  map[string]string
+	heapTypes  map[string]types.Type
+	epochAlloc map[int]string
+	posQuants []*posQuant
+	idxTerms  []string
+	instDone  map[string]bool
+	inQuant   int
 }
 
 func newCtx(eng *Engine, mode Mode, fnKey string) *Ctx {
 	return &Ctx{eng: eng, mode: mode, sorts: newSorts(mode), notes: map[string]bool{}, inlined: map[string]bool{},
 		externals: map[string]bool{}, trusted: map[string]bool{}, heapSorts: map[string]string{}, initHeaps: map[string]string{},
-		fnKey: fnKey, specUsed: map[string]bool{}, ufs: map[string]bool{}}
+		fnKey: fnKey, specUsed: map[string]bool{}, ufs: map[string]bool{}, instDone: map[string]bool{}, heapTypes: map[string]types.Type{}, constGlob: map[string]string{}, epochAlloc: map[int]string{}}
 }
 
 func (c *Ctx) fresh(prefix string) string {
@@ -143,6 +150,175 @@ func (c *Ctx) assume(guard, fact string) {
 	} else {
 		c.emit(fmt.Sprintf("(assert (=> %s %s))", guard, fact))
 	}
+	c.registerQuants(guard, fact)
+}
+
+// ---- ground instantiation of assumed universal facts ----------------------
+// The solvers often fail to instantiate `forall j. lo <= j < hi => P(j)`
+// hypotheses at the index the code actually touches (the index is hidden under
+// offset arithmetic).  Every universally quantified fact that is assumed in a
+// positive position is therefore also assumed at each slice index term of the
+// function: (forall j. B(j)) implies B(t), so this adds nothing that is not
+// already a consequence of the hypotheses.
+
+type posQuant struct {
+	guard string
+	pre   string // fact text before the forall
+	post  string // fact text after the forall
+	vn    string
+	body  string
+}
+
+// findPositiveForall locates a forall that occurs in a positive position of
+// fact (reached through `and`, the consequent of `=>`, and `let` bodies only).
+func findPositiveForalls(fact string) [][2]int {
+	var out [][2]int
+	var walk func(from, to int)
+	walk = func(from, to int) {
+		t := strings.TrimSpace(fact[from:to])
+		off := from + strings.Index(fact[from:to], t)
+		if !strings.HasPrefix(t, "(") {
+			return
+		}
+		inner := t[1 : len(t)-1]
+		// split head and args with positions
+		i := 0
+		for i < len(inner) && inner[i] != ' ' && inner[i] != '(' {
+			i++
+		}
+		head := inner[:i]
+		// positions of top-level args
+		var args [][2]int
+		j := i
+		for j < len(inner) {
+			if inner[j] == ' ' || inner[j] == '\n' || inner[j] == '\t' {
+				j++
+				continue
+			}
+			if inner[j] == '(' {
+				_, end := readSexp(inner, j)
+				args = append(args, [2]int{off + 1 + j, off + 1 + end})
+				j = end
+				continue
+			}
+			k := j
+			for k < len(inner) && !strings.ContainsRune(" \t\n()", rune(inner[k])) {
+				k++
+			}
+			args = append(args, [2]int{off + 1 + j, off + 1 + k})
+			j = k
+		}
+		switch head {
+		case "forall":
+			out = append(out, [2]int{off, off + len(t)})
+		case "and":
+			for _, a := range args {
+				walk(a[0], a[1])
+			}
+		case "=>":
+			if len(args) == 2 {
+				walk(args[1][0], args[1][1])
+			}
+		case "let":
+			if len(args) == 2 {
+				walk(args[1][0], args[1][1])
+			}
+		}
+	}
+	walk(0, len(fact))
+	return out
+}
+
+func (c *Ctx) registerQuants(guard, fact string) {
+	if !strings.Contains(fact, "(forall ((") {
+		return
+	}
+	for _, span := range findPositiveForalls(fact) {
+		q := fact[span[0]:span[1]] // (forall ((vn Sort)) BODY)
+		parts := topSexps(q[1 : len(q)-1])
+		if len(parts) != 3 {
+			continue
+		}
+		bind := parts[1] // ((vn Sort))
+		inner := topSexps(bind[1 : len(bind)-1])
+		if len(inner) != 1 {
+			continue
+		}
+		vs := topSexps(inner[0][1 : len(inner[0])-1])
+		if len(vs) != 2 || vs[1] != c.sorts.idxSort() {
+			continue
+		}
+		body := parts[2]
+		if strings.HasPrefix(body, "(!") { // strip pattern annotation
+			bp := topSexps(body[1 : len(body)-1])
+			if len(bp) >= 2 {
+				body = bp[1]
+			}
+		}
+		pq := &posQuant{guard: guard, pre: fact[:span[0]], post: fact[span[1]:], vn: vs[0], body: body}
+		c.posQuants = append(c.posQuants, pq)
+		for _, t := range c.idxTerms {
+			c.instantiate(pq, t)
+		}
+	}
+}
+
+func replaceToken(s, tok, by string) string {
+	var b strings.Builder
+	i := 0
+	for i < len(s) {
+		j := strings.Index(s[i:], tok)
+		if j < 0 {
+			b.WriteString(s[i:])
+			break
+		}
+		j += i
+		end := j + len(tok)
+		okL := j == 0 || strings.ContainsRune(" ()\t\n", rune(s[j-1]))
+		okR := end == len(s) || strings.ContainsRune(" ()\t\n", rune(s[end]))
+		if okL && okR {
+			b.WriteString(s[i:j])
+			b.WriteString(by)
+		} else {
+			b.WriteString(s[i:end])
+		}
+		i = end
+	}
+	return b.String()
+}
+
+func (c *Ctx) instantiate(pq *posQuant, term string) {
+	key := pq.vn + "|" + term
+	if c.instDone[key] {
+		return
+	}
+	c.instDone[key] = true
+	inst := pq.pre + replaceToken(pq.body, pq.vn, term) + pq.post
+	if pq.guard == "true" || pq.guard == "" {
+		c.emit("(assert " + inst + ")")
+	} else {
+		c.emit(fmt.Sprintf("(assert (=> %s %s))", pq.guard, inst))
+	}
+}
+
+// registerIdx records a slice index term of the function (ground: it must not
+// mention a bound variable) and instantiates the assumed universal facts at it.
+func (c *Ctx) registerIdx(term string) {
+	if term == "" || strings.Contains(term, "!q") || c.inQuant > 0 {
+		return
+	}
+	for _, t := range c.idxTerms {
+		if t == term {
+			return
+		}
+	}
+	if len(c.idxTerms) > 40 {
+		return
+	}
+	c.idxTerms = append(c.idxTerms, term)
+	for _, pq := range c.posQuants {
+		c.instantiate(pq, term)
+	}
 }
 
 func (c *Ctx) oblige(kind, name, guard, goal string, pos token.Position) *Obl {
@@ -180,6 +356,7 @@ func (c *Ctx) ensureHeapSort(key string, t types.Type) {
 	if _, ok := c.heapSorts[key]; ok {
 		return
 	}
+	c.heapTypes[key] = t
 	switch {
 	case strings.HasPrefix(key, "H:"):
 		c.heapSorts[key] = "(Array Int " + c.sorts.sortOf(t) + ")"
@@ -194,6 +371,9 @@ func (c *Ctx) heapSym(st *State, key string) string {
 	if s, ok := st.heaps[key]; ok {
 		return s
 	}
+	if s, ok := c.constGlob[key]; ok {
+		return s // package-level constant: the same value in every state
+	}
 	ik := fmt.Sprintf("%s|%d", key, st.epoch)
 	if s, ok := c.initHeaps[ik]; ok {
 		return s
@@ -204,7 +384,65 @@ func (c *Ctx) heapSym(st *State, key string) string {
 	}
 	s := c.decl("heap_"+sanitize(key), srt)
 	c.initHeaps[ik] = s
+	if bound, ok := c.epochAlloc[st.epoch]; ok {
+		c.refAxioms(s, key, bound)
+	}
 	return s
+}
+
+// refPaths lists the reference-valued components (pointers, backing arrays of
+// slices) reachable by value inside a value of type t, as accessor terms over x.
+func (c *Ctx) refPaths(t types.Type, x string, depth int) []string {
+	if depth > 2 {
+		return nil
+	}
+	switch t.Underlying().(type) {
+	case *types.Pointer:
+		return []string{x}
+	case *types.Slice:
+		return []string{fmt.Sprintf("(s_arr %s)", x)}
+	case *types.Struct:
+		info := c.sorts.info(t)
+		var out []string
+		for i, ft := range info.ftypes {
+			out = append(out, c.refPaths(ft, fmt.Sprintf("(%s %s)", info.fields[i], x), depth+1)...)
+		}
+		return out
+	}
+	return nil
+}
+
+// refAxioms: well-formedness of a heap as it stands at the beginning of an
+// epoch (function entry, or right after an unknown call): every reference
+// stored in it was allocated before `bound`, so it cannot alias anything
+// allocated later.
+func (c *Ctx) refAxioms(heap, key string, bound string) {
+	t := c.heapTypes[key]
+	if t == nil {
+		return
+	}
+	switch {
+	case strings.HasPrefix(key, "H:"):
+		paths := c.refPaths(t, fmt.Sprintf("(select %s r!a)", heap), 0)
+		if len(paths) == 0 {
+			return
+		}
+		var cs []string
+		for _, p := range paths {
+			cs = append(cs, fmt.Sprintf("(< %s %s)", p, bound))
+		}
+		c.emit(fmt.Sprintf("(assert (forall ((r!a Int)) (! %s :pattern ((select %s r!a)))))", and(cs...), heap))
+	case strings.HasPrefix(key, "A:"):
+		paths := c.refPaths(t, fmt.Sprintf("(select (select %s r!a) i!a)", heap), 0)
+		if len(paths) == 0 {
+			return
+		}
+		var cs []string
+		for _, p := range paths {
+			cs = append(cs, fmt.Sprintf("(< %s %s)", p, bound))
+		}
+		c.emit(fmt.Sprintf("(assert (forall ((r!a Int) (i!a %s)) (! %s :pattern ((select (select %s r!a) i!a)))))", c.sorts.idxSort(), and(cs...), heap))
+	}
 }
 
 func (c *Ctx) havocAll(st *State, keepCells bool) {
@@ -222,6 +460,7 @@ func (c *Ctx) havocAll(st *State, keepCells bool) {
 	na := c.decl("alloc", "Int")
 	c.assume("true", fmt.Sprintf("(>= %s %s)", na, st.alloc))
 	st.alloc = na
+	c.epochAlloc[st.epoch] = na
 }
 
 // rootTerm reads the root object a pointer is based on.
@@ -281,6 +520,24 @@ func (c *Ctx) load(st *State, p *Ptr) Val {
 			if isInt64Like(p.Cast) && isFloatType(p.ET) {
 				c.note("unsafe: uint64 reinterpreted as float64 bits (to_fp)")
 				return Val{T: p.ET, S: "((_ to_fp 11 53) " + src.S + ")"}
+			}
+			// *(*uint64)(unsafe.Pointer(&bs[i])): eight consecutive bytes, little endian (amd64)
+			if bits, _, ok := isIntType(p.Cast); ok && bits == 8 && isInt64Like(p.ET) && len(p.Path) > 0 && p.Path[len(p.Path)-1].IsIndex {
+				c.note("unsafe: 8 bytes of a []byte read as one little-endian uint64 (amd64)")
+				base := &Ptr{Key: p.Key, Base: p.Base, Path: p.Path[:len(p.Path)-1], ET: p.Cast}
+				c.ensureHeapSort(p.Key, p.Cast)
+				arr := c.project(c.rootTerm(st, base), base.Path)
+				idx := p.Path[len(p.Path)-1].Index
+				t := ""
+				for k := 7; k >= 0; k-- {
+					b := fmt.Sprintf("(select %s (bvadd %s %s))", arr, idx, c.sorts.idxLit(int64(k)))
+					if t == "" {
+						t = b
+					} else {
+						t = fmt.Sprintf("(concat %s %s)", t, b)
+					}
+				}
+				return Val{T: p.ET, S: t}
 			}
 		}
 		c.note("unsafe cast load havocked: " + p.Cast.String() + " as " + p.ET.String())
